@@ -14,6 +14,7 @@
 -/
 import KmipModel.Lemmas.ClientRespLemmas
 import KmipModel.Lemmas.NegoLemmas
+import KmipModel.Lemmas.ClientSignerLemmas
 namespace Kmip.C12
 open Kmip.Resp
 
@@ -362,5 +363,118 @@ theorem discovery_bad_payload (t : Tables) (C : List Ver) (bi : Item) (hs : bi.s
     split at h
     · rename_i heq; exact absurd heq hp
     · exact h ▸ rfl
+
+/-! ### 6. the composite helper `Client.Signer` / `cryptoSigner.Sign` (kmipclient/sign_verify.go)
+
+  The only code of kmipclient/*.go outside client.go that interprets the CONTENT of response payloads.
+  The server is a script (the list of its answers to the successive requests), universally quantified.
+  `Signer.WireTyped script`: every attribute value has the Go type belonging to its attribute name — what
+  the wire decoder guarantees for any server. `Variant` says which type assertions the code checks;
+  `Signer.currentCode` is the tree under verification. -/
+
+open Kmip.Signer in
+/-- The property for the helper: against every server, neither `Signer` nor a following `Sign` panics. -/
+def C12_signer_full (v : Signer.Variant) : Prop :=
+  ∀ (t : Tables) (priv pub : Bool) (o : Signer.SignOpts) (script : List Signer.Answer), Signer.WireTyped script →
+    Signer.signerThenSign v t priv pub o script ≠ .signerPanic ∧
+    Signer.signerThenSign v t priv pub o script ≠ .signPanic
+
+/-- the witness: a server whose two GetAttributes answers announce an EC key pair while its Get answer
+    carries an RSA public key (four accepted responses of the requested operations). -/
+def signerWitness : List Signer.Answer :=
+  let okItem (op : Nat) : RoundTrip := .msg 1 [{ op := op, status := 0, reason := 0, msg := [], payload := some (.resp op) }]
+  [ { rt := okItem 0xB, attrs := [.objectType (some 4), .alg (some 0x1A), .link (some (0x102, true)), .mask (some 1)] },
+    { rt := okItem 0xB, attrs := [.objectType (some 3), .alg (some 0x1A), .mask (some 2)] },
+    { rt := okItem 0xA, key := some .rsa },
+    { rt := okItem 0x21, sigLen := 3 } ]
+
+theorem signerWitness_wireTyped : Signer.WireTyped signerWitness := by
+  intro a ha x hx
+  simp only [signerWitness, List.mem_cons, List.not_mem_nil, or_false] at ha
+  rcases ha with rfl | rfl | rfl | rfl <;> simp at hx <;> (try rcases hx with rfl | rfl | rfl | rfl) <;>
+    (try rcases hx with rfl | rfl | rfl) <;> rfl
+
+/-- with the unchecked assertion of `Sign` (`c.publicKey.(*ecdsa.PublicKey)`), `Signer` accepts the
+    inconsistent answers and `Sign` panics. -/
+theorem signer_unchecked_witness :
+    Signer.signerThenSign Signer.unchecked pinnedTables true false (.hash true) signerWitness = .signPanic := by
+  decide
+
+/-- `C12_signer_full` is FALSE of the unchecked variant … -/
+theorem signer_unchecked_full_false : ¬ C12_signer_full Signer.unchecked := by
+  intro h
+  exact (h pinnedTables true false (.hash true) signerWitness signerWitness_wireTyped).2 signer_unchecked_witness
+
+/-- … which is the code of the tree under verification: OPEN FINDING `sign:panic interface conversion`. -/
+theorem signer_current_code : Signer.currentCode = Signer.unchecked := rfl
+
+theorem C12_signer_full_false : ¬ C12_signer_full Signer.currentCode := signer_unchecked_full_false
+
+/-- `Signer` itself never panics against a real server, in either variant … -/
+theorem signer_never_panics_on_wire (v : Signer.Variant) (t : Tables) (priv pub : Bool) (script : List Signer.Answer)
+    (hw : Signer.WireTyped script) : Signer.signer v t priv pub script ≠ .panic :=
+  Signer.signer_ne_panic v t priv pub script (.inr hw)
+
+/-- … and `Sign` panics EXACTLY when nothing checks the key kind, the Sign response is accepted, the
+    attributes announced EC / ECDSA and the key material is not an ECDSA key. -/
+theorem sign_panics_iff (v : Signer.Variant) (t : Tables) (s : Signer.SignerVal) (o : Signer.SignOpts)
+    (script : List Signer.Answer) :
+    Signer.sign v t s o script = .panic ↔
+      (v.checkedKey = false ∧ Signer.signPre s.alg o = true ∧ Signer.Accepted Signer.opSign (Signer.nextAnswer script).1 ∧
+        (s.alg = Signer.algEC ∨ s.alg = Signer.algECDSA) ∧ ∀ n, s.key ≠ .ecdsa n) :=
+  Signer.sign_panic_iff v t s o script
+
+/-- With checked assertions (the proposed repair) the helper never panics, for EVERY script — responses
+    fabricated in-process, with attribute values of foreign Go types, included. -/
+theorem signer_checked_never_panics (t : Tables) (priv pub : Bool) (o : Signer.SignOpts) (script : List Signer.Answer) :
+    Signer.signerThenSign Signer.checked t priv pub o script ≠ .signerPanic ∧
+    Signer.signerThenSign Signer.checked t priv pub o script ≠ .signPanic := by
+  unfold Signer.signerThenSign
+  cases hs : Signer.signer Signer.checked t priv pub script with
+  | panic => exact absurd hs (Signer.signer_ne_panic _ t priv pub script (.inl rfl))
+  | err e => simp
+  | ok r =>
+    obtain ⟨s, rest⟩ := r
+    simp only
+    cases hg : Signer.sign Signer.checked t s o rest with
+    | panic => exact absurd hg (Signer.sign_ne_panic_of_checked _ t s o rest rfl)
+    | err e => simp
+    | ok c => simp
+
+theorem signer_checked_full : C12_signer_full Signer.checked :=
+  fun t priv pub o script _ => signer_checked_never_panics t priv pub o script
+
+/-- `Signer` succeeds only when EVERY exchange it made was accepted — one to three GetAttributes
+    responses, then one Get response, each a single successful item carrying the response payload of the
+    requested operation — and the key material was parsed (checked variant: and is of the announced kind). -/
+theorem signer_ok_only_from_accepted (v : Signer.Variant) (t : Tables) (priv pub : Bool) (script : List Signer.Answer)
+    (s : Signer.SignerVal) (rest : List Signer.Answer) (h : Signer.signer v t priv pub script = .ok (s, rest)) :
+    ∃ gas g, script = gas ++ g :: rest ∧ 1 ≤ gas.length ∧ gas.length ≤ 3 ∧
+      (∀ a ∈ gas, Signer.Accepted Signer.opGetAttributes a) ∧ Signer.Accepted Signer.opGet g ∧ g.key = some s.key ∧
+      (v.checkedKey = true → Signer.keyMatches s.alg s.key = true) :=
+  Signer.signer_ok v t priv pub script s rest h
+
+/-- a signature is only returned from an accepted Sign response. -/
+theorem sign_ok_only_from_accepted (v : Signer.Variant) (t : Tables) (s : Signer.SignerVal) (o : Signer.SignOpts)
+    (script : List Signer.Answer) (c : Bool) (h : Signer.sign v t s o script = .ok c) :
+    Signer.signPre s.alg o = true ∧ Signer.Accepted Signer.opSign (Signer.nextAnswer script).1 :=
+  Signer.sign_ok v t s o script c h
+
+/-- a failed item in answer to the Sign request is returned as an error carrying status, reason, message. -/
+theorem sign_failed_item (v : Signer.Variant) (t : Tables) (s : Signer.SignerVal) (o : Signer.SignOpts)
+    (a : Signer.Answer) (rest : List Signer.Answer) (bi : Item) (hpre : Signer.signPre s.alg o = true)
+    (hrt : a.rt = .msg 1 [bi]) (hs : bi.status ≠ statusSuccess) :
+    Signer.sign v t s o (a :: rest) =
+      .err (.exec (.item (enumStr t.ops bi.op) (enumStr t.status bi.status) (enumStr t.reasons bi.reason) bi.msg)) :=
+  Signer.sign_failed v t s o a rest bi hpre hrt hs
+
+/-- non-vacuity: consistent answers (EC attributes, P-256 key, raw 64-byte signature) give a converted
+    signature; an RSA pair gives the signature as is. -/
+example : Signer.signerThenSign Signer.unchecked pinnedTables true false (.hash true)
+    [ signerWitness[0]!, signerWitness[1]!, { signerWitness[2]! with key := some (.ecdsa 32) },
+      { signerWitness[3]! with sigLen := 64 } ] = .signed true := by decide
+
+example : Signer.signerThenSign Signer.checked pinnedTables true false (.hash true) signerWitness =
+    .signerErr .helper := by decide
 
 end Kmip.C12
